@@ -1,6 +1,8 @@
 package world
 
 import (
+	"crypto/sha256"
+	"encoding/binary"
 	"fmt"
 	"sort"
 	"strings"
@@ -220,4 +222,36 @@ func (w *World) dumpQueries(ctx sdk.Context) (out []string) {
 		out = append(out, "QRP err")
 	}
 	return out
+}
+
+// digestStores are the stores whose complete contents are hashed in twin runs (C07): everything the state machine writes, including
+// what no dump line shows (account numbers, sequences, staking and distribution records, parameters).
+var digestStores = []string{"acc", "bank", "authz", "distribution", "staking", "slashing", "mint", "gov", "params", "feegrant", "evm", "feemarket", "erc20",
+	stypes.StoreKey, otypes.StoreKey}
+
+// StoreDigest hashes every key and value of the state-machine stores at the current (uncommitted) state.
+func (w *World) StoreDigest() string {
+	ctx := w.at()
+	h := sha256.New()
+	for _, name := range digestStores {
+		key := w.A.GetKey(name)
+		if key == nil {
+			continue
+		}
+		it := ctx.KVStore(key).Iterator(nil, nil)
+		n := 0
+		for ; it.Valid(); it.Next() {
+			var l [8]byte
+			binary.BigEndian.PutUint64(l[:], uint64(len(it.Key())))
+			h.Write(l[:])
+			h.Write(it.Key())
+			binary.BigEndian.PutUint64(l[:], uint64(len(it.Value())))
+			h.Write(l[:])
+			h.Write(it.Value())
+			n++
+		}
+		it.Close()
+		fmt.Fprintf(h, "|%s:%d|", name, n)
+	}
+	return fmt.Sprintf("%X", h.Sum(nil)[:16])
 }
